@@ -158,6 +158,10 @@ def sendMessage (connected : Bool) (id : Nat) (data : Bytes) (remote : Bool) : O
 /-- `PeriodicMessageTask.__init__`: the message handed to `bus.send_periodic` -/
 def periodicMessage (id : Nat) (data : Bytes) (remote : Bool) : CanMsg := mkMessage id data remote
 
+/-- `PeriodicMessageTask.update(data)`: the same message object with a new payload (id, format
+    and remote flag untouched), handed to `modify_data` or to a fresh `send_periodic` -/
+def periodicUpdate (m : CanMsg) (data : Bytes) : CanMsg := { m with data := data }
+
 /-! ### scanner -/
 
 /-- the node id `NodeScanner.on_message_received` extracts, if it accepts the CAN id
